@@ -2,8 +2,8 @@ package sym
 
 import (
 	"fmt"
-	"math/big"
 	"go/types"
+	"math/big"
 	"sort"
 	"strings"
 )
@@ -53,46 +53,46 @@ type Violation struct {
 
 // AssertRec tallies one obligation id.
 type AssertRec struct {
-	ID         string
-	Checked    int // number of path-level queries
-	Proved     int // unsat answers
-	Failed     int
-	Unknown    int
-	Reached    bool
+	ID      string
+	Checked int // number of path-level queries
+	Proved  int // unsat answers
+	Failed  int
+	Unknown int
+	Reached bool
 }
 
 type State struct {
-	E        *Engine
-	pendingGo []pendingGo // goroutines started by go statements, not yet run (see vRunGoroutines)
-	mem      map[*Object]Value
-	prefix   []bool
-	pos      int
-	decided  []bool
-	forcedAt []bool
-	pc       []*Term
-	fresh    int
-	nondets  []NondetRec
-	events   []Event
-	declared []string
-	known    []knownRegion // pending known-finding regions for the next assert
-	nDec     int
-	depth    int
-	instrs   int
-	steps    int
-	curFrame *frame
-	closureID int
-	scratch  map[string]Value // harness scratch registry (vSet/vGet)
+	E                            *Engine
+	pendingGo                    []pendingGo // goroutines started by go statements, not yet run (see vRunGoroutines)
+	mem                          map[*Object]Value
+	prefix                       []bool
+	pos                          int
+	decided                      []bool
+	forcedAt                     []bool
+	pc                           []*Term
+	fresh                        int
+	nondets                      []NondetRec
+	events                       []Event
+	declared                     []string
+	known                        []knownRegion // pending known-finding regions for the next assert
+	nDec                         int
+	depth                        int
+	instrs                       int
+	steps                        int
+	curFrame                     *frame
+	closureID                    int
+	scratch                      map[string]Value // harness scratch registry (vSet/vGet)
 	decomp, sufDecomp, preDecomp map[string]*decompRec
-	noSep    map[string]bool
-	subCache map[string]*Term
-	condCache map[string]bool
-	charset  map[string]string
-	preds    []predUse
-	watch    map[*Object]bool // objects reachable from a watched closure's captured variables
-	transcript []string // declarations and assertions of this path, for fallback solvers
-	predDecl map[string]bool
-	maxlen   map[string]int
-	minlen   map[string]int
+	noSep                        map[string]bool
+	subCache                     map[string]*Term
+	condCache                    map[string]bool
+	charset                      map[string]string
+	preds                        []predUse
+	watch                        map[*Object]bool // objects reachable from a watched closure's captured variables
+	transcript                   []string         // declarations and assertions of this path, for fallback solvers
+	predDecl                     map[string]bool
+	maxlen                       map[string]int
+	minlen                       map[string]int
 }
 
 type predUse struct {
@@ -110,7 +110,16 @@ func (st *State) abort(reason, detail string) {
 }
 
 func (st *State) unsupported(format string, args ...interface{}) {
-	st.abort("unsupported", fmt.Sprintf(format, args...))
+	// name the place in the executed code (innermost first): it is what has to be modelled next
+	where := ""
+	n := 0
+	for fr := st.curFrame; fr != nil && n < 4; fr = fr.caller {
+		if fr.fn != nil {
+			where += " < " + fr.fn.String()
+			n++
+		}
+	}
+	st.abort("unsupported", fmt.Sprintf(format, args...)+where)
 }
 
 // ---- memory ----
